@@ -205,6 +205,12 @@ func runCheck(def *CheckDef, tier string, seed int, noKnown, noReplay bool, only
 	var qs struct{ q, sat, unsat, unknown, errs int }
 	var solverT time.Duration
 	distinct := 0
+	passingValidated := 0
+	passingBudget := 2
+	if tier == "thorough" {
+		passingBudget = 8
+	}
+	var passing []map[string]interface{}
 	for _, o := range outcomes {
 		r := o.res
 		for k, v := range r.Reach {
@@ -241,7 +247,20 @@ func runCheck(def *CheckDef, tier string, seed int, noKnown, noReplay bool, only
 		}
 		for _, s := range r.OKSamples {
 			if len(samples) < 6 {
-				samples = append(samples, map[string]interface{}{"job": o.spec.Name, "status": "ok", "choices": s.Choices, "decisions": len(s.Trace), "steps": s.Steps, "notes": s.Notes})
+				samples = append(samples, map[string]interface{}{"job": o.spec.Name, "status": "ok", "choices": s.Choices, "decisions": len(s.Trace), "steps": s.Steps, "notes": s.Notes, "model": trimModel(s.Model)})
+			}
+		}
+		// passing-path validation: a model of a passing symbolic path must also pass natively
+		if !o.spec.NoReplay && !o.spec.Witness && !noReplay && len(r.OKSamples) > 0 && passingValidated < passingBudget {
+			s := r.OKSamples[0]
+			ro, err := writeReplayIn(def.ID, "passing", o.spec, s, passingValidated, known, true)
+			if err == nil {
+				passingValidated++
+				validated++
+				if ro.Result != "ok" && !strings.HasPrefix(ro.Result, "known") && ro.Result != "assume-false" {
+					inconclusive = append(inconclusive, fmt.Sprintf("%s: a passing symbolic path does not pass natively (native: %s) — engine/stub mismatch, see %s", o.spec.Name, ro.Result, ro.Dir))
+				}
+				passing = append(passing, map[string]interface{}{"job": o.spec.Name, "native_result": ro.Result})
 			}
 		}
 		if o.spec.Witness {
@@ -320,26 +339,27 @@ func runCheck(def *CheckDef, tier string, seed int, noKnown, noReplay bool, only
 		fmt.Fprintln(os.Stderr, "inconclusive:", s)
 	}
 	cov := map[string]interface{}{
-		"states":                        states,
-		"transitions":                   transitions,
-		"traces_validated_against_impl": validated,
-		"evaluations":                   states,
-		"distinct_nontrivial":           distinct,
-		"rule":                          "one evaluation = one completed symbolic path of a harness (a path covers every value of its symbolic variables); distinct = distinct decision vectors; non-trivial = not discarded by an assumption",
-		"verdict_queries_nonconstant":   verdictQ,
-		"queries":                       map[string]int{"total": qs.q, "sat": qs.sat, "unsat": qs.unsat, "unknown": qs.unknown, "error": qs.errs},
-		"solver_time_s":                 solverT.Seconds(),
-		"solver":                        "z3 4.8.12 (z3 -in), one process per worker",
-		"reach_labels":                  reach,
-		"known_findings_hit":            khList,
-		"inconclusive_reasons":          inconclusive,
-		"replays":                       replays,
-		"bounds":                        def.Bounds[tier],
-		"outside_claim":                 def.Outside,
-		"stubs":                         def.Stubs,
-		"functions_encoded":             repoFuncs(funcs),
-		"functions_encoded_total":       len(funcs),
-		"exhaustive":                    len(inconclusive) == 0,
+		"states":                          states,
+		"transitions":                     transitions,
+		"traces_validated_against_impl":   validated,
+		"evaluations":                     states,
+		"distinct_nontrivial":             distinct,
+		"rule":                            "one evaluation = one completed symbolic path of a harness (a path covers every value of its symbolic variables); distinct = distinct decision vectors; non-trivial = not discarded by an assumption",
+		"verdict_queries_nonconstant":     verdictQ,
+		"queries":                         map[string]int{"total": qs.q, "sat": qs.sat, "unsat": qs.unsat, "unknown": qs.unknown, "error": qs.errs},
+		"solver_time_s":                   solverT.Seconds(),
+		"solver":                          "z3 4.8.12 (z3 -in), one process per worker",
+		"reach_labels":                    reach,
+		"known_findings_hit":              khList,
+		"inconclusive_reasons":            inconclusive,
+		"replays":                         replays,
+		"passing_paths_replayed_natively": passing,
+		"bounds":                          def.Bounds[tier],
+		"outside_claim":                   def.Outside,
+		"stubs":                           def.Stubs,
+		"functions_encoded":               repoFuncs(funcs),
+		"functions_encoded_total":         len(funcs),
+		"exhaustive":                      len(inconclusive) == 0,
 	}
 	var jobsCov []map[string]interface{}
 	for _, o := range outcomes {
@@ -383,4 +403,29 @@ func writeEvidence(def *CheckDef, tier string, seed int, cov map[string]interfac
 	b, _ := json.MarshalIndent(ev, "", " ")
 	os.MkdirAll(filepath.Join(verifDir, "evidence"), 0755)
 	os.WriteFile(filepath.Join(verifDir, "evidence", def.ID+".json"), b, 0644)
+}
+
+func trimModel(m map[string]uint64) map[string]uint64 {
+	out := map[string]uint64{}
+	n := 0
+	for _, k := range sortedModelKeys(m) {
+		if strings.HasPrefix(k, "crc#") || strings.HasPrefix(k, "xxh#") {
+			continue
+		}
+		out[k] = m[k]
+		n++
+		if n >= 24 {
+			break
+		}
+	}
+	return out
+}
+
+func sortedModelKeys(m map[string]uint64) []string {
+	ks := make([]string, 0, len(m))
+	for k := range m {
+		ks = append(ks, k)
+	}
+	sort.Strings(ks)
+	return ks
 }
